@@ -25,7 +25,11 @@ def sweep(pid, tier, seed):
 
 
 SPEC = {
-    "corr": [{"kind": "mirror", "quick": 4000, "thorough": 100000, "runner": RUNNER}],
+    "corr": [{"kind": "mirror", "quick": 4000, "thorough": 100000, "runner": RUNNER},
+             # "never changes what is decoded and published": the real pipelines (read loop, pools, workers) with the real
+             # mirror dispatchers and workers running; every published payload must still be the solo decode of its datagram
+             {"kind": "pipeline", "quick": 60, "thorough": 1600, "runner": {"pkg": "./vflow", "test": "TestVerifPipeline", "race": False},
+              "env": {"VERIF_PIPE_MIRROR": "1"}}],
     "extra": [sweep],
     "rule": "real mirrorIPFIX/mirrorSFlow towards random 127/8 targets and ports, captured on a raw IPPROTO_UDP socket and a UDP "
             "listener; payload lengths 0..max biased to max-29..max for max in {64,1500,9000}, random contents and sources in 4- and "
